@@ -231,6 +231,25 @@ def restore (sn : Snapshot Rec) : State := fmt.restore sn
 def fmtBeforeFix : Format State Rec := { fmt with restorer := restorerBeforeFix }
 def restoreBeforeFix (sn : Snapshot Rec) : State := fmtBeforeFix.restore sn
 
+def kNodes : Bytes := [110, 111, 100, 101, 115]
+def kServices : Bytes := [115, 101, 114, 118, 105, 99, 101, 115]
+
+/-- `maxIndexTxn` of one key: a missing row counts as 0 -/
+def idxOr0 (i : List IdxRow) (k : Bytes) : Nat :=
+  match idxGet i k with
+  | some v => v
+  | none => 0
+
+/-- The derived usage row "kvs" = (Count, Index) as `txn.Commit → updateUsage` writes it when the restore
+    transaction commits (usage.go): every restored key is a `Created` change, so Count = number of keys;
+    `changes.Index == 0` for the restore transaction, so Index = maxIndexTxn(nodes, services, kvs) read
+    AFTER IndexRestore; no key ⇒ no change ⇒ no row. (Online the row carries the index of the last
+    transaction that created or deleted a key, and survives with Count 0: known findings
+    snap:usage:Index:restore-uses-max-of-table-indexes, snap:usage:zero-count-row-not-recreated.) -/
+def usageKvsAfterRestore (r : State) : Option (Nat × Nat) :=
+  if r.kvs = [] then none
+  else some (r.kvs.length, max (idxOr0 r.index kNodes) (max (idxOr0 r.index kServices) (idxOr0 r.index kKvs)))
+
 /-- kind name of a record, as the harness names the message types of the real stream -/
 def Rec.kind : Rec → String
   | .session _ => "sessions"
